@@ -118,6 +118,10 @@ def t_div(a: Term, b: Term) -> Term:
     nb = number(b)
     if nb is not None and nb != 0:
         return t_scale(a, Fraction(1) / nb)
+    # (c * x) / b == c * (x / b): keeps  -t / t1  and  -(t / t1)  in one normal form
+    if a[0] == "lin" and len(a[1]) == 1 and a[2] == 0:
+        atom, c = a[1][0]
+        return t_scale(("div", atom, b), c)
     return ("div", a, b)
 
 
